@@ -34,8 +34,8 @@ def parse_directives(path):
     pend = {}
     for line in open(path):
         s = line.strip()
-        if s.startswith("//verif:"):
-            for m in re.finditer(r'(\w+)=("[^"]*"|\S+)', s[len("//verif:"):]):
+        if s.startswith("//verif:") or s.startswith("// verif:"):
+            for m in re.finditer(r'(\w+)=("[^"]*"|\S+)', s[s.index("verif:") + 6:]):
                 pend[m.group(1)] = m.group(2).strip('"')
         elif s.startswith("func VH_"):
             name = s[5:s.index("(")]
